@@ -19,7 +19,7 @@ rundemo() { # $1 = repo copy
   local dd=$dst; [ -d $dst/demo ] && dd=$dst/demo
   if [ -f $dd/go.mod ] && grep -q "replace" $dd/go.mod; then
     local w=/tmp/sd-demo-$$; rm -rf $w; mkdir -p $w; cp $dd/*.go $dd/go.mod $w/ 2>/dev/null; cp $d/go.sum $w/
-    sed -i "s#=> /tmp/wt-[A-Za-z0-9]*#=> $d#; s#=> \.\./\.\./\.\.#=> $d#; s#=> \.\./\.\.#=> $d#" $w/go.mod
+    sed -i "s#=> /tmp/wt[0-9]*-[A-Za-z0-9]*#=> $d#; s#=> \.\./\.\./\.\.#=> $d#; s#=> \.\./\.\.#=> $d#" $w/go.mod
     local rc
     if ls $w/*_test.go >/dev/null 2>&1; then
       (cd $w && go test -vet=off -count=1 ./... 2>&1 | tail -4; exit ${PIPESTATUS[0]}); rc=$?
